@@ -50,6 +50,8 @@ def mirrored(sc) -> dict:
     b["frames"]["offsets"] = [-o for o in reversed(offs)]
     if sc["frames"].get("split"):
         b["frames"]["split"] = list(reversed(sc["frames"]["split"]))
+    if sc["frames"].get("per_file"):
+        b["frames"]["per_file"] = list(reversed(sc["frames"]["per_file"]))
     for c in ("u", "v"):
         amp = sc["flow"].get("amp_" + c) or [1.0] * n
         b["flow"]["amp_" + c] = [-a for a in reversed(amp)]
